@@ -1,10 +1,15 @@
 use std::collections::{HashMap, hash_map};
 use std::ops::Deref;
+#[cfg(not(folo_verif))]
 use std::sync::{Arc, RwLock};
+#[cfg(folo_verif)]
+use std::sync::Arc;
 use std::thread::{self, ThreadId};
 
 use simple_mermaid::mermaid;
 
+#[cfg(folo_verif)]
+use crate::verif_hook::RwLock;
 use crate::{BuildThreadIdHasher, ERR_POISONED_LOCK};
 
 /// A wrapper that manages linked instances of `T`, ensuring that only one
@@ -264,6 +269,7 @@ where
     pub fn __verif_thread_state_keys(&self) -> Vec<ThreadId> {
         self.family
             .thread_specific
+            .probe()
             .read()
             .expect(ERR_POISONED_LOCK)
             .keys()
@@ -308,8 +314,6 @@ where
 
         // First, an optimistic pass - let us assume it is already initialized for our thread.
         {
-            #[cfg(folo_verif)]
-            crate::verif_hook::point("ipts.map.read");
             let map = self.thread_specific.read().expect(ERR_POISONED_LOCK);
 
             if let Some(state) = map.get(&thread_id) {
@@ -324,8 +328,6 @@ where
         let instance: Arc<T> = Arc::new(self.family.clone().into());
 
         // Let us add the new instance to the map.
-        #[cfg(folo_verif)]
-        crate::verif_hook::point("ipts.map.write");
         let mut map = self.thread_specific.write().expect(ERR_POISONED_LOCK);
 
         // In some wild corner cases, it is perhaps possible that the arbitrary code in the
@@ -353,8 +355,6 @@ where
         // We need to clear the thread-specific state for this thread.
         let thread_id = thread::current().id();
 
-        #[cfg(folo_verif)]
-        crate::verif_hook::point("ipts.clear.write");
         let mut map = self.thread_specific.write().expect(ERR_POISONED_LOCK);
         map.remove(&thread_id);
     }
@@ -394,8 +394,6 @@ where
             return;
         }
 
-        #[cfg(folo_verif)]
-        crate::verif_hook::point("ipts.family_drop.read");
         let map = self.thread_specific.read().expect(ERR_POISONED_LOCK);
         assert!(
             map.is_empty(),
@@ -428,6 +426,16 @@ where
     fn clone_instance(&self) -> Arc<T> {
         Arc::clone(&self.instance)
     }
+}
+
+/// Verification-only: the thread-specific state map is a scheduling point when locked.
+#[cfg(folo_verif)]
+impl<T> crate::verif_hook::LockLabels for HashMap<ThreadId, ThreadSpecificState<T>, BuildThreadIdHasher>
+where
+    T: linked::Object + Send + Sync,
+{
+    const READ: &'static str = "ipts.map.read";
+    const WRITE: &'static str = "ipts.map.write";
 }
 
 #[cfg(test)]
